@@ -64,9 +64,10 @@ inductive Res
 
 /-- Outcome of the range test and the `uint8_t` update of `code_len[j]` for
 window value `k` and current length `c`: `none` = `ERR_DELTA`, otherwise the
-new value of `code_len[j]`. -/
-def stepLen (c k : Nat) : Option Nat :=
-  if Gen.deltaCheckShape = 1 then
+new value of `code_len[j]`.  `shape` selects the form of the test (see the
+file header); the C code as it is has `shape = Gen.deltaCheckShape`. -/
+def stepLenShape (shape c k : Nat) : Option Nat :=
+  if shape = 1 then
     if c < Gen.MIN_CODE_LENGTH + tLO k ∨ c + tHI k > Gen.MAX_CODE_LENGTH then none
     else some (((c + tR k) % 256 + 256 - Gen.deltaBias) % 256)
   else
@@ -75,10 +76,12 @@ def stepLen (c k : Nat) : Option Nat :=
         c1 > Gen.deltaBiasHi + Gen.MAX_CODE_LENGTH then none
     else some ((c1 + 256 - Gen.deltaBias) % 256)
 
+def stepLen (c k : Nat) : Option Nat := stepLenShape Gen.deltaCheckShape c k
+
 /-- The `while (rs->j < rs->alpha_size)` loop.  `todo = alpha_size - j`,
 `c = code_len[j]`, `acc` = the finished entries `code_len[0..j)` reversed.
 `fuel` bounds the number of iterations (every iteration DUMPs ≥ 1 bit, so
-`bits.length + 1` is enough: `Lemmas.Delta.loop_fuel`). -/
+`bits.length + 1` is enough: `Lemmas.Delta.loop_eq` holds for any such fuel). -/
 def loop : Nat → Nat → Nat → List Nat → List Bool → Res
   | 0, _, _, _, _ => .errEof
   | fuel + 1, todo, c, acc, bits =>
